@@ -30,6 +30,7 @@
     target_feature = "v7"
 ))]
 use std::arch::is_arm_feature_detected;
+#[cfg(not(fast_tlsh_verif))]
 #[cfg(all(
     feature = "simd-per-arch",
     feature = "opt-simd-body-comparison",
@@ -37,6 +38,7 @@ use std::arch::is_arm_feature_detected;
     any(target_arch = "x86", target_arch = "x86_64")
 ))]
 use std::arch::is_x86_feature_detected;
+#[cfg(not(fast_tlsh_verif))]
 #[cfg(all(
     feature = "simd-per-arch",
     feature = "opt-simd-body-comparison",
@@ -48,6 +50,14 @@ use std::arch::is_x86_feature_detected;
     )
 ))]
 use std::sync::OnceLock;
+#[cfg(all(
+    fast_tlsh_verif,
+    feature = "simd-per-arch",
+    feature = "opt-simd-body-comparison",
+    feature = "detect-features",
+    any(target_arch = "x86", target_arch = "x86_64")
+))]
+use crate::verif::{is_x86_feature_detected, OnceLock};
 
 mod arm_neon;
 #[allow(dead_code)]
